@@ -1,0 +1,48 @@
+//go:build verif
+
+package otto
+
+// Verification hooks (build tag "verif"). Add-only instrumentation used by the
+// model-checking harness in /verif; compiled out entirely without the tag.
+
+type verifRT struct {
+	step func(n int)
+	sync func(kind int)
+	n    int
+}
+
+// verifStep is called at every interrupt polling point, before the poll.
+func (rt *runtime) verifStep() {
+	if rt.verif.step != nil {
+		n := rt.verif.n
+		rt.verif.n++
+		rt.verif.step(n)
+	}
+}
+
+// verifSync is called around the runtime lock in clone (0 = before lock, 1 = after unlock).
+func (rt *runtime) verifSync(kind int) {
+	if rt.verif.sync != nil {
+		rt.verif.sync(kind)
+	}
+}
+
+// VerifSetStepHook installs (or clears, with nil) the per-runtime step callback and
+// resets the step counter.
+func VerifSetStepHook(o *Otto, f func(n int)) {
+	o.runtime.verif.step = f
+	o.runtime.verif.n = 0
+}
+
+// VerifSetSyncHook installs the per-runtime clone lock callback.
+func VerifSetSyncHook(o *Otto, f func(kind int)) {
+	o.runtime.verif.sync = f
+}
+
+// VerifRestState reports the depth of the scope stack and the number of pending labels.
+func VerifRestState(o *Otto) (scopes int, labels int) {
+	for s := o.runtime.scope; s != nil; s = s.outer {
+		scopes++
+	}
+	return scopes, len(o.runtime.labels)
+}
